@@ -8,6 +8,7 @@ open C05CodecModel
 open C05SegModel
 open C05SegCodecModel
 open C05EmsgModel
+open C05EncHistModel
 
 let hexn s = n_of_hex s
 let hn n = hex_of_n n
@@ -118,8 +119,9 @@ let full_string (l : fullsample list) : string =
 
 let res_class = function Base.Ok _ -> "o" | Base.Err -> "e" | Base.Panic -> "p" | Base.OutOfFuel -> "fuel"
 
-(* ---- histories: sample additions interleaved with AddEmsg (E), AddChild (C) and a plain Encode (N: no effect on the
-   observables compared here, skipped by the model) *)
+(* ---- histories: sample additions interleaved with AddEmsg (E), AddChild (C) and Encode calls in the middle of the
+   history (N: plain, O: with OptimizeTrun), which the model runs as the state transformer encode_state of
+   C05EncHistModel.v: outcome class + tfhd / trun flags and data offsets right after each of them are compared (n=) *)
 let parse_xbox (s : string) : xbox =
   match split_on '.' s with
   | [k; sz; first; refs] ->
@@ -133,10 +135,11 @@ let parse_xbox (s : string) : xbox =
 
 let parse_xboxes (s : string) : xbox list = if s = "-" then [] else L.map parse_xbox (split_on ',' s)
 
-type hop = HS of op * coq_N list | HE of xbox | HC of xbox | HN
+type hop = HS of op * coq_N list | HE of xbox | HC of xbox | HN of bool
 
 let parse_hop (s : string) : hop =
-  if s = "N" then HN
+  if s = "N" then HN false
+  else if s = "O" then HN true
   else if S.length s > 2 && S.sub s 0 2 = "E:" then HE (parse_xbox (S.sub s 2 (S.length s - 2)))
   else if S.length s > 2 && S.sub s 0 2 = "C:" then HC (parse_xbox (S.sub s 2 (S.length s - 2)))
   else let (o, d) = parse_op s in HS (o, d)
@@ -144,26 +147,39 @@ let parse_hop (s : string) : hop =
 let parse_hops (s : string) : hop list = if s = "-" then [] else L.map parse_hop (split_on ';' s)
 
 (* runs a history from the created fragment fr0 with boxes p0 put in front of the moof; returns the class string,
-   the final state (None after a panic) and the data the caller writes for the accepted metadata-only additions *)
+   the final state (None after a panic), the data the caller writes for the accepted metadata-only additions and the
+   observables after every Encode in the middle *)
+let nobs_acc : string list ref = ref []
+
 let run_hops (fr0 : frag) (p0 : xbox list) (hops : hop list) : string * lstate option * coq_N list =
-  let lops = L.concat (L.map (function HS (o, _) -> [LSample o] | HE x -> [LEmsg x] | HC x -> [LChild x] | HN -> []) hops) in
-  let (classes, sto) = run_lops (l_start fr0 p0 []) lops in
+  let st = ref (Some (l_start fr0 p0 [])) in
   let b = Buffer.create 16 in
   let lz = ref [] in
-  let rec go hs cs panicked =
-    if panicked then () else
-    match hs with
-    | [] -> ()
-    | HN :: rest -> Buffer.add_string b "o"; go rest cs false
-    | h :: rest ->
-      (match cs with
-       | [] -> ()
-       | c :: cs' ->
-         Buffer.add_string b (class_char c);
-         (match h, c with HS (_, d), COk -> lz := d :: !lz | _ -> ());
-         go rest cs' (c = CPanic)) in
-  go hops classes false;
-  (Buffer.contents b, sto, L.concat (L.rev !lz))
+  nobs_acc := [];
+  (try
+     L.iter (fun h ->
+         match !st with
+         | None -> raise Exit
+         | Some s ->
+           (match h with
+            | HN opt ->
+              (match encode_state opt (l_sync s) with
+               | (c, Some fr') ->
+                 Buffer.add_string b (class_char c);
+                 st := Some { l_children = s.l_children; l_frag = fr' };
+                 nobs_acc := traf_enc fr' :: !nobs_acc
+               | (c, None) -> Buffer.add_string b (class_char c); st := None)
+            | _ ->
+              let lo = (match h with HS (o, _) -> LSample o | HE x -> LEmsg x | HC x -> LChild x | HN _ -> assert false) in
+              (match lstep s lo with
+               | Base.Ok s' ->
+                 Buffer.add_string b "o";
+                 (match h with HS (_, d) -> lz := d :: !lz | _ -> ());
+                 st := Some s'
+               | Base.Err -> Buffer.add_string b "e"
+               | _ -> Buffer.add_string b "p"; st := None))) hops
+   with Exit -> ());
+  (Buffer.contents b, !st, L.concat (L.rev !lz))
 
 let layout_string (cs : child list) : string =
   match cs with
@@ -182,6 +198,7 @@ let case_h id cfg opss obs =
   let (classes, sto, lazy_data) = run_hops fr0 p0 (parse_hops opss) in
   let b = Buffer.create 256 in
   Buffer.add_string b ("ops=" ^ classes);
+  (match !nobs_acc with [] -> () | l -> Buffer.add_string b ("|n=" ^ S.concat "/" (L.rev l)));
   (match sto with
    | None -> ()
    | Some st ->
